@@ -129,6 +129,7 @@ def examine(ctx, R, g, events, before_tree, op, info, initial_dirty_clear=True):
 
 
 def run(ctx, build):
+    lib.corr_modules(ctx, SPEC, ['fat_dir_corr'])
     R = ctx.runner('Fat')
     rng = ctx.rng
     nhist = 24 if ctx.thorough else 7
